@@ -7,6 +7,7 @@ import (
 	"fmt"
 	"go/token"
 	"go/types"
+	"os"
 	"sort"
 	"strings"
 
@@ -110,6 +111,12 @@ type Path struct {
 	chanSeq  int
 	crcs     []crcRec
 	optShuffle bool
+	// cluster harness options: larger thread/timer bounds, one scheduling order per timing assignment
+	// (lowest thread id first), kRandomNodes without the rotation fork
+	maxThreadsOpt, maxTimersOpt int
+	schedDet, kRandomDet      bool
+	ranges                    map[string]ival // declared vRange bounds (part of the path condition)
+	intervalCuts              int
 	encLen   int
 	aeadTamper bool
 }
@@ -185,6 +192,15 @@ func (p *Path) branch(c *Term) bool {
 	}
 	if c.IsConst() {
 		return c.Val == 1
+	}
+	if p.schedDet {
+		if v, ok := p.intervalBool(c); ok {
+			p.intervalCuts++
+			return v
+		}
+		if os.Getenv("SYMGO_DEBUG_BRANCH") != "" && p.branches < 40 {
+			fmt.Fprintf(os.Stderr, "BRANCH %s ranges=%v\n", c.String(), p.ranges)
+		}
 	}
 	p.branches++
 	idx := len(p.dec)
